@@ -23,7 +23,7 @@ from __future__ import annotations
 import ast
 
 from ..absval import Poly, Rat, ratfun
-from ..cfg import CFG
+from ..cfg import CFG, guarded_by
 from ..core import (AnalysisError, ancestors, call_name, const_str, dotted,
                     find_calls, is_self_attr, last_attr, names_in, short,
                     txt, walk)
@@ -75,6 +75,211 @@ def _np(name):
         return "builtin:" + parts[0] if parts[0] in ("min", "max", "sum") \
             else parts[0]
     return name
+
+
+# ----------------------------------------------------------------------
+# one-level expansion of calls to private helpers (same class / module)
+# (same code as in rules/C01.py – rule modules are self-contained)
+
+def _clone(node):
+    """copy of an AST subtree without the parent links"""
+    if isinstance(node, list):
+        return [_clone(x) for x in node]
+    if not isinstance(node, ast.AST):
+        return node
+    new = node.__class__()
+    for f in node._fields:
+        if hasattr(node, f):
+            setattr(new, f, _clone(getattr(node, f)))
+    for a in node._attributes:
+        if hasattr(node, a):
+            setattr(new, a, getattr(node, a))
+    return new
+
+
+def _relink(node, parent):
+    node.parent = parent
+    for ch in ast.iter_child_nodes(node):
+        _relink(ch, node)
+
+
+def _private_callee(repo, rel, func, call):
+    """FunctionDef of `self._x(...)`, `cls._x(...)`, `<Class>._x(...)` or a
+    module-level `_x(...)` – private helpers only (extracted code)"""
+    f = call.func
+    cls = func.parent if isinstance(getattr(func, "parent", None),
+                                    ast.ClassDef) else None
+    name = None
+    scope = None
+    if isinstance(f, ast.Attribute) and isinstance(f.value, ast.Name) \
+            and cls is not None and f.value.id in ("self", "cls", cls.name):
+        name, scope = f.attr, cls
+    elif isinstance(f, ast.Name):
+        name, scope = f.id, repo.tree(rel)
+    if name is None or not name.startswith("_") or name.startswith("__"):
+        return None
+    cands = [d for d in scope.body if isinstance(d, ast.FunctionDef)
+             and d.name == name]
+    if len(cands) != 1 or cands[0] is func:
+        return None
+    return cands[0]
+
+
+def expand_private_calls(repo, rel, func):
+    """A copy of `func` in which every statement `self._helper(...)` /
+    `x = self._helper(...)` is replaced by the helper's body (parameters
+    bound to the arguments, helper locals renamed on collision).  The copy
+    hangs under the same class, so construct keys name the caller.  Helpers
+    that return from the middle are left as calls."""
+    sites = []
+    for st in walk(func):
+        if isinstance(st, ast.Expr) and isinstance(st.value, ast.Call):
+            callee = _private_callee(repo, rel, func, st.value)
+        elif isinstance(st, ast.Assign) and len(st.targets) == 1 \
+                and isinstance(st.value, ast.Call):
+            callee = _private_callee(repo, rel, func, st.value)
+        else:
+            continue
+        if callee is not None:
+            sites.append((st, callee))
+    if not sites:
+        return func
+    new = _clone(func)
+    # locate the cloned statements by position (walk order is the same)
+    olds = [n for n in walk(func)]
+    news = [n for n in walk(new)]
+    if len(olds) != len(news):
+        raise AnalysisError(f"{func.name}: clone mismatch")
+    where = {id(o): n for o, n in zip(olds, news)}
+    caller_names = {n.id for n in ast.walk(func) if isinstance(n, ast.Name)}
+    caller_names |= {a.arg for a in func.args.args}
+    done = 0
+    for st, callee in sites:
+        body = _inline_body(st, callee, caller_names, func)
+        if body is None:
+            continue
+        tgt = where[id(st)]
+        _replace_stmt(new, tgt, body)
+        done += 1
+    if not done:
+        return func
+    _relink(new, func.parent)
+    new.expanded_from = [c.name for _, c in sites]
+    return new
+
+
+def _replace_stmt(root, old, body):
+    for n in ast.walk(root):
+        for f in ("body", "orelse", "finalbody"):
+            lst = getattr(n, f, None)
+            if isinstance(lst, list):
+                for i, x in enumerate(lst):
+                    if x is old:
+                        lst[i:i + 1] = body
+                        return
+    raise AnalysisError("inline: statement not found")
+
+
+def _inline_body(st, callee, caller_names, func):
+    call = st.value
+    a = callee.args
+    if a.vararg or a.kwarg or a.posonlyargs or any(
+            isinstance(x, ast.Starred) for x in call.args) or any(
+            k.arg is None for k in call.keywords):
+        return None
+    params = [x.arg for x in a.args]
+    static = any(txt(d) == "staticmethod" for d in callee.decorator_list)
+    is_method = isinstance(callee.parent, ast.ClassDef)
+    bound = {}
+    pos = list(call.args)
+    if is_method and not static:
+        if not params:
+            return None
+        first = params.pop(0)
+        bound[first] = ast.Name(id="self", ctx=ast.Load()) if isinstance(
+            call.func, ast.Attribute) else None
+        if isinstance(call.func, ast.Attribute) and isinstance(
+                call.func.value, ast.Name) and call.func.value.id not in (
+                "self", "cls"):
+            # Class.method(obj, ...) form
+            if not pos:
+                return None
+            bound[first] = pos.pop(0)
+    if len(pos) > len(params):
+        return None
+    for p_, v in zip(params, pos):
+        bound[p_] = v
+    for k in call.keywords:
+        if k.arg not in params or k.arg in bound:
+            return None
+        bound[k.arg] = k.value
+    defaults = dict(zip(reversed([x.arg for x in a.args]),
+                        reversed(a.defaults)))
+    for x in a.kwonlyargs:
+        params.append(x.arg)
+    for x, dv in zip(a.kwonlyargs, a.kw_defaults):
+        if dv is not None:
+            defaults[x.arg] = dv
+    for p_ in params:
+        if p_ not in bound:
+            if p_ not in defaults:
+                return None
+            bound[p_] = defaults[p_]
+    body = [b for b in callee.body if not (
+        isinstance(b, ast.Expr) and isinstance(b.value, ast.Constant)
+        and isinstance(b.value.value, str))]
+    # returns: only a single trailing one
+    rets = [n for b in body for n in walk(b) if isinstance(n, ast.Return)]
+    tail = None
+    if rets:
+        if len(rets) != 1 or rets[0] is not body[-1]:
+            return None
+        tail = rets[0].value
+        body = body[:-1]
+    elif isinstance(st, ast.Assign):
+        return None
+    # renaming: parameters bound to an equally named plain name stay;
+    # everything else the helper binds gets a suffix when it collides
+    ren = {}
+    pre = []
+    for p_, v in bound.items():
+        if isinstance(v, ast.Name) and v.id == p_:
+            continue
+        ren[p_] = p_ + "__h" if p_ in caller_names else p_
+        asg = ast.Assign(targets=[ast.Name(id=ren[p_], ctx=ast.Store())],
+                         value=_clone(v), lineno=st.lineno,
+                         col_offset=st.col_offset)
+        pre.append(asg)
+    local = set()
+    for b in body:
+        for n in walk(b):
+            if isinstance(n, ast.Name) and isinstance(n.ctx, ast.Store):
+                local.add(n.id)
+    for nm in local:
+        if nm not in bound and nm in caller_names:
+            ren[nm] = nm + "__h"
+    out = pre + [_clone(b) for b in body]
+    if tail is not None and isinstance(st, ast.Assign):
+        out.append(ast.Assign(targets=[_clone(st.targets[0])],
+                              value=_clone(tail), lineno=st.lineno,
+                              col_offset=st.col_offset))
+    elif tail is not None and not isinstance(tail, (ast.Constant, ast.Name)):
+        out.append(ast.Expr(value=_clone(tail), lineno=st.lineno,
+                            col_offset=st.col_offset))
+    for b in out[len(pre):]:
+        for n in ast.walk(b):
+            if isinstance(n, ast.Name) and n.id in ren:
+                n.id = ren[n.id]
+    for b in out:
+        ast.fix_missing_locations(b)
+    if not out:
+        out = [ast.Pass(lineno=st.lineno, col_offset=st.col_offset)]
+    return out
+
+
+def wfunc(repo, rel, qual):
+    """function with calls to private helpers expanded (one level)"""
+    return expand_private_calls(repo, rel, repo.func(rel, qual))
 
 
 # ----------------------------------------------------------------------
@@ -294,7 +499,7 @@ class Prov:
 
 
 def r201(ctx, repo):
-    wn = repo.func(WR, "RTDCWriter.write_ndarray")
+    wn = wfunc(repo, WR, "RTDCWriter.write_ndarray")
     stores = summary_stores(wn)
     if not stores:
         raise AnalysisError("write_ndarray: no summary attributes stored")
@@ -409,6 +614,13 @@ def _stmt_of(node):
     return n
 
 
+def _func_of(node):
+    n = node
+    while not isinstance(n, ast.FunctionDef):
+        n = n.parent
+    return n
+
+
 def _weighted_mean(ctx, pv, node, lab, table):
     leaves = {}
 
@@ -509,14 +721,24 @@ def _weighted_mean(ctx, pv, node, lab, table):
 # ----------------------------------------------------------------------
 # R20.2
 
-def reader_table(cls):
-    """{method name: (uname, reducer)} from `_fetch_ufunc_attr("x", f)`"""
+def reader_table(cls, repo=None, rel=None):
+    """{method name: (uname, reducer)} from `_fetch_ufunc_attr("x", f)`;
+    a plain name is resolved through the module-level constants"""
+    def lit(e):
+        v = const_str(e)
+        if v is None and isinstance(e, ast.Name) and repo is not None:
+            m = repo.module_assign(rel, e.id, missing_ok=True)
+            if m is None:
+                raise AnalysisError(f"{cls.name}: attribute name "
+                                    f"`{e.id}` cannot be resolved")
+            v = const_str(m)
+        return v
     out = {}
     for f in cls.body:
         if isinstance(f, ast.FunctionDef):
             for c in find_calls(f, attr="_fetch_ufunc_attr"):
-                if len(c.args) == 2 and const_str(c.args[0]):
-                    out[f.name] = (const_str(c.args[0]),
+                if len(c.args) == 2 and lit(c.args[0]):
+                    out[f.name] = (lit(c.args[0]),
                                    _np(dotted(c.args[1])), c)
     return out
 
@@ -528,7 +750,7 @@ def r202(ctx, repo, wtable, wn):
         ctx.ob("R20.2", ok, f"writer: {u} -> {sorted(reds)}" if ok else
                f"writer computes {u} with {sorted(reds)}", node=wn,
                key=f"{WR}::RTDCWriter.write_ndarray::table {u}")
-    cp = repo.func(CP, "rtdc_copy")
+    cp = wfunc(repo, CP, "rtdc_copy")
     cstores = summary_stores(cp)
     ctab = {}
     for u, st, env in cstores:
@@ -551,7 +773,7 @@ def r202(ctx, repo, wtable, wn):
                f"{sorted(wtable.get(u, set()))}", node=st,
                key=f"{CP}::rtdc_copy::table {u}")
     for rel, cname in ((EV, "H5ScalarEvent"), (HE, "ChildScalar")):
-        tab = reader_table(repo.cls(rel, cname))
+        tab = reader_table(repo.cls(rel, cname), repo, rel)
         for u in NAMES:
             if u not in tab:
                 m = [f for f in repo.cls(rel, cname).body
@@ -579,6 +801,10 @@ def r202(ctx, repo, wtable, wn):
 # R20.3
 
 def check_fetch(ctx, rel, cls, cname):
+    """cached = cache.get(name); computed only when cached is None, from the
+    object's own data; stored under the same name; every exit returns the
+    cached value or, after computing, the computed one.  if-form and
+    early-return form are both decided on the CFG."""
     f = [x for x in cls.body if isinstance(x, ast.FunctionDef)
          and x.name == "_fetch_ufunc_attr"]
     if not f:
@@ -588,54 +814,88 @@ def check_fetch(ctx, rel, cls, cname):
     if len(params) != 3:
         raise AnalysisError(f"{cname}._fetch_ufunc_attr signature changed")
     _, uname, ufunc = params
-    rets = [n for n in walk(f) if isinstance(n, ast.Return)]
-    if len(rets) != 1 or not isinstance(rets[0].value, ast.Name):
-        raise AnalysisError(f"{cname}._fetch_ufunc_attr: return form")
-    val = rets[0].value.id
-    defs = [n for n in walk(f) if isinstance(n, ast.Assign)
-            and any(isinstance(t, ast.Name) and t.id == val
-                    for t in n.targets)]
-    cached = [d for d in defs if isinstance(d.value, ast.Call)
+    cfg = CFG(f)
+    assigns = [n for n in walk(f) if isinstance(n, ast.Assign)
+               and len(n.targets) == 1
+               and isinstance(n.targets[0], ast.Name)]
+    cached = [d for d in assigns if isinstance(d.value, ast.Call)
               and last_attr(d.value) == "get"
+              and isinstance(d.value.func, ast.Attribute)
               and is_self_attr(d.value.func.value, "_ufunc_attrs")
-              and d.value.args and txt(d.value.args[0]) == uname] + [
-        d for d in defs if isinstance(d.value, ast.Subscript)
-        and is_self_attr(d.value.value, "_ufunc_attrs")
-        and txt(d.value.slice) == uname]
-    comp = [d for d in defs if d not in cached]
-    ok = len(cached) == 1
+              and d.value.args]
+    if len(cached) != 1:
+        raise AnalysisError(f"{cname}._fetch_ufunc_attr: cache lookup form")
+    C = cached[0].targets[0].id
+    ok = txt(cached[0].value.args[0]) == uname
     ctx.ob("R20.3", ok, f"{cname}: the cached value is looked up under the "
            f"requested name" if ok else f"{cname}: the cache is not read "
            f"under `{uname}`", node=f, label="cache lookup by name")
-    ok = len(comp) == 1 and isinstance(comp[0].value, ast.Call) \
-        and txt(comp[0].value.func) == ufunc \
-        and len(comp[0].value.args) == 1 and txt(
-            comp[0].value.args[0]) in ("self.__array__()", "self[:]",
-                                       "np.asarray(self)")
+    comp = [d for d in assigns if d is not cached[0]
+            and isinstance(d.value, ast.Call)]
+    if len(comp) != 1:
+        raise AnalysisError(f"{cname}._fetch_ufunc_attr: fallback form")
+    comp = comp[0]
+    X = comp.targets[0].id
+    ok = txt(comp.value.func) == ufunc and len(comp.value.args) == 1 \
+        and not comp.value.keywords and txt(comp.value.args[0]) in (
+            "self.__array__()", "self[:]", "np.asarray(self)")
     ctx.ob("R20.3", ok, f"{cname}: a missing value is computed with the "
            f"given reducer over the object's own data" if ok else
-           f"{cname}: fallback `{short(comp[0].value, 40) if comp else '-'}`"
-           f" is not `{ufunc}(own data)`", node=comp[0] if comp else f,
+           f"{cname}: fallback `{short(comp.value, 40)}` is not "
+           f"`{ufunc}(own data)`", node=comp,
            label="fallback computes from own data")
-    if comp:
-        g = comp[0].parent
-        ok = isinstance(g, ast.If) and comp[0] in g.body and isinstance(
-            g.test, ast.Compare) and isinstance(g.test.ops[0], ast.Is) \
-            and txt(g.test.left) == val and txt(
-                g.test.comparators[0]) == "None"
-        ctx.ob("R20.3", ok, f"{cname}: computed only when nothing is cached"
-               if ok else f"{cname}: the fallback is not guarded by "
-               f"`{val} is None`", node=g if isinstance(g, ast.If) else f,
-               label="fallback only when missing", nontrivial=False)
+
+    def none_fact(e, truth):
+        if isinstance(e, ast.Compare) and len(e.ops) == 1 and isinstance(
+                e.left, ast.Name) and e.left.id == C and txt(
+                e.comparators[0]) == "None":
+            return (isinstance(e.ops[0], ast.Is) and truth) or (
+                isinstance(e.ops[0], ast.IsNot) and not truth)
+        return False
+    c_ids = cfg.ids_of(comp)
+    ok = all(guarded_by(cfg, i, none_fact) for i in c_ids)
+    ctx.ob("R20.3", ok, f"{cname}: computed only when nothing is cached"
+           if ok else f"{cname}: the fallback is not guarded by "
+           f"`{C} is None`", node=comp, label="fallback only when missing",
+           nontrivial=False)
     st = [n for n in walk(f) if isinstance(n, ast.Assign)
           and isinstance(n.targets[0], ast.Subscript)
           and is_self_attr(n.targets[0].value, "_ufunc_attrs")]
+    s_ids = set()
+    for n in st:
+        s_ids |= set(cfg.ids_of(n))
     ok = len(st) == 1 and txt(st[0].targets[0].slice) == uname \
-        and txt(st[0].value) == val
+        and txt(st[0].value) == X and all(
+            cfg.must_pass(lambda n: n.id in s_ids, src=i,
+                          avoid_edge=lambda a, lab, b: lab == "x")
+            for i in c_ids)
     ctx.ob("R20.3", ok, f"{cname}: the computed value is cached under the "
-           f"same name" if ok else f"{cname}: the computed value is cached "
-           f"under another name", node=st[0] if st else f,
+           f"same name" if ok else f"{cname}: the computed value is not "
+           f"cached under `{uname}` on every path", node=st[0] if st else f,
            label="cache store by name")
+    # what is returned
+    after = cfg.reach(c_ids)
+    bad = []
+    rets = [n for n in walk(f) if isinstance(n, ast.Return)]
+    if not rets:
+        raise AnalysisError(f"{cname}._fetch_ufunc_attr: no return")
+    for r in rets:
+        name = r.value.id if isinstance(r.value, ast.Name) else None
+        post = bool(set(cfg.ids_of(r)) & after)
+        pre = any(i not in after for i in cfg.ids_of(r)) or (
+            post and set(cfg.ids_of(r)) & cfg.reach(
+                [cfg.entry], avoid_node=lambda n: n.id in c_ids))
+        if post and name != X:
+            bad.append(r)
+        if pre and name not in (C, X):
+            bad.append(r)
+        if pre and name == X and X != C:
+            bad.append(r)
+    ctx.ob("R20.3", not bad, f"{cname}: returns the cached value, or the "
+           f"computed one after computing" if not bad else
+           f"{cname}: `{short(bad[0], 30)}` does not return the value "
+           f"that was looked up / computed", node=bad[0] if bad else rets[0],
+           label="returns cached or computed value")
 
 
 def r203(ctx, repo, cstores):
@@ -673,7 +933,7 @@ def r203(ctx, repo, cstores):
            f"of the unfiltered parent", node=seed[0],
            label="child cache starts empty")
     # hierarchy refresh discards the children
-    af = repo.func(HB, "RTDC_Hierarchy.apply_filter")
+    af = wfunc(repo, HB, "RTDC_Hierarchy.apply_filter")
     ok = any(is_self_attr(c.func.value, "_events")
              for c in find_calls(af, attr="clear")) or any(
         isinstance(n, ast.Assign) and any(
@@ -690,6 +950,7 @@ def r203(ctx, repo, cstores):
            "rejuvenate no longer calls apply_filter", node=rj,
            label="rejuvenate refreshes", nontrivial=False)
     # copier completes only missing summaries, from the copied dataset
+    cp_cfg = CFG(_func_of(cstores[0][1])) if cstores else None
     for u, st, env in cstores:
         v = st.value
         tgt = txt(st.targets[0].value.value)
@@ -698,12 +959,17 @@ def r203(ctx, repo, cstores):
                f"dataset" if ok else f"copier computes {u} from "
                f"`{short(v.args[0], 30)}`, not from the copied dataset",
                node=st, key=f"{CP}::rtdc_copy::completion source {u}")
-        g = st.parent
         keyname = txt(st.targets[0].slice)
-        ok = isinstance(g, ast.If) and isinstance(g.test, ast.Compare) \
-            and isinstance(g.test.ops[0], ast.NotIn) \
-            and txt(g.test.left) == keyname \
-            and txt(g.test.comparators[0]) == f"{tgt}.attrs"
+
+        def missing_fact(e, truth, keyname=keyname, tgt=tgt):
+            if isinstance(e, ast.Compare) and len(e.ops) == 1 \
+                    and txt(e.left) == keyname \
+                    and txt(e.comparators[0]) == f"{tgt}.attrs":
+                return (isinstance(e.ops[0], ast.NotIn) and truth) or (
+                    isinstance(e.ops[0], ast.In) and not truth)
+            return False
+        ok = all(guarded_by(cp_cfg, i, missing_fact)
+                 for i in cp_cfg.ids_of(st))
         ctx.ob("R20.3", ok, f"copier completes {u} only when it is missing"
                if ok else f"copier overwrites / skips {u} regardless of "
                f"presence", node=st,
@@ -711,6 +977,11 @@ def r203(ctx, repo, cstores):
                nontrivial=False)
     # who stores summaries
     allowed = {(WR, "RTDCWriter.write_ndarray"), (CP, "rtdc_copy")}
+    for rel_, q_ in sorted(allowed):
+        f_ = wfunc(repo, rel_, q_)
+        pre = q_.rsplit(".", 1)[0] + "." if "." in q_ else ""
+        for h in getattr(f_, "expanded_from", []):
+            allowed.add((rel_, pre + h))
     n_sites = 0
     for rel in repo.files("dclab/"):
         if ".attrs[" not in repo.src(rel):
@@ -738,7 +1009,7 @@ def r203(ctx, repo, cstores):
                f"(`{short(low[0], 40) if low else 'no store_feature'}`)",
                node=f, label="features go through store_feature")
     # replace mode removes the dataset together with its attributes
-    sf = repo.func(WR, "RTDCWriter.store_feature")
+    sf = wfunc(repo, WR, "RTDCWriter.store_feature")
     dels = [n for n in walk(sf) if isinstance(n, ast.Delete)
             and any(is_self_attr(x, "mode") for a in ancestors(n)
                     if isinstance(a, ast.If) for x in ast.walk(a.test))]
@@ -916,6 +1187,45 @@ def _block_stored_late(src):
     return src[:b] + line + src[b:]
 
 
+def _extract_block(src, first, last, call, helper_head, before, dedent):
+    """cut the lines from the one starting with `first` to the one starting
+    with `last` (inclusive), put `call` there and a new helper made of
+    `helper_head` + the dedented block in front of the line `before`"""
+    a = src.find(first)
+    b = src.find(last, a)
+    if a < 0 or b < 0 or src.count(before) != 1:
+        return src
+    b = src.index("\n", b) + 1
+    block = src[a:b]
+    body = "".join(line[dedent:] if line.strip() else line
+                   for line in block.splitlines(True))
+    src = src[:a] + call + src[b:]
+    return src.replace(before, helper_head + body + "\n" + before)
+
+
+def _summaries_in_helper(src):
+    return _extract_block(
+        src,
+        "            # store ufunc data for min/max\n",
+        '            dset.attrs["mean"] = ',
+        "            self._update_scalar_ufunc_attrs(dset, data)\n",
+        "    @staticmethod\n"
+        "    def _update_scalar_ufunc_attrs(dset, data):\n"
+        '        """update min/max/mean of a scalar dataset"""\n',
+        "    def write_ndarray(self, group, name, data, dtype=None):\n", 4)
+
+
+def _repopulate_in_helper(src):
+    return _extract_block(
+        src,
+        "        # update event index\n",
+        '            self._events["trace"] = trdict\n',
+        "        self._repopulate_events()\n",
+        "    def _repopulate_events(self):\n"
+        '        """clear the feature cache, set index and wrappers"""\n',
+        "    def apply_filter(self, *args, **kwargs):\n", 0)
+
+
 MUTANTS = [
     # R20.1
     ("writer: max of a block with np.max", WR,
@@ -949,6 +1259,13 @@ MUTANTS = [
      ('self._fetch_ufunc_attr("mean", np.nanmean)',
       'self._fetch_ufunc_attr("mean", np.mean)'), "R20.2"),
     # R20.3
+    ("H5ScalarEvent recomputes although a value is stored", EV,
+     ("        if val is None:\n            val = ufunc(self.__array__())",
+      "        if val is not None:\n"
+      "            val = ufunc(self.__array__())"), "R20.3"),
+    ("copier overwrites stored summaries", CP,
+     ("                        if attr not in dst.attrs:\n", 
+      "                        if attr in dst.attrs:\n"), "R20.3"),
     ("H5ScalarEvent caches under a fixed name", EV,
      ("self._ufunc_attrs[uname] = val", 'self._ufunc_attrs["min"] = val'),
      "R20.3"),
@@ -1008,6 +1325,29 @@ TWINS = [
       "self._ufunc_attrs = dict(h5ds.attrs)")),
     ("ChildScalar cache created with dict()", HE,
      ("self._ufunc_attrs = {}", "self._ufunc_attrs = dict()")),
+    # refactorings by independent agents (reduced to the essential edit)
+    ("summary maintenance extracted into a private static helper", WR,
+     _summaries_in_helper),
+    ("cache reset extracted into _repopulate_events()", HB,
+     _repopulate_in_helper),
+    ("copier completion with early continue", CP,
+     ("                        if attr not in dst.attrs:\n"
+      "                            dst.attrs[attr] = ufunc(dst)\n",
+      "                        if attr in dst.attrs:\n"
+      "                            continue\n"
+      "                        dst.attrs[attr] = ufunc(dst)\n")),
+    ("H5ScalarEvent lookup with early return", EV,
+     ("        val = self._ufunc_attrs.get(uname, None)\n"
+      "        if val is None:\n"
+      "            val = ufunc(self.__array__())\n"
+      "            self._ufunc_attrs[uname] = val\n"
+      "        return val\n",
+      "        cached = self._ufunc_attrs.get(uname, None)\n"
+      "        if cached is not None:\n"
+      "            return cached\n"
+      "        computed = ufunc(self.__array__())\n"
+      "        self._ufunc_attrs[uname] = computed\n"
+      "        return computed\n")),
 ]
 
 # mutants that re-introduce the repaired defects (apply to the fixed tree)
